@@ -108,3 +108,47 @@ C["kneeliverse.clustering.average_linkage"] = dict(
         "forall(0, i, lambda a: implies((%s), a == _h_idx))" % first_of("clusters", "i-1", "a"),
     ])},
 )
+
+
+# ---------------------------------------------------------------- lemmas over the contracts: the cluster count never increases with t
+def _post(kind, lab, t):
+    """the postcondition of the linkage (shape + rule) for labels `lab` and threshold `t`"""
+    body = C["kneeliverse.clustering.%s_linkage" % kind]["ensures"]
+    return [e.replace("result", lab).replace(">= t)", ">= %s)" % t) for e in body]
+
+
+LEMMAS["single_linkage_monotone"] = dict(
+    context="kneeliverse.clustering.single_linkage", owner="C11", mode="R",
+    vars={"points": "Seq[Tup[Real,Real]]", "t1": "Real", "t2": "Real", "r1": "Seq[Int]", "r2": "Seq[Int]"},
+    hyps=["len(points) >= 2", "forall2(0, len(points), lambda a, b: points[a][0] < points[b][0])", "0 < t1 and t1 <= t2"]
+         + _post("single", "r1", "t1") + _post("single", "r2", "t2"),
+    # induction on the position: the labels for the larger threshold never exceed those for the smaller one
+    steps=[{"induct": ("i", "0", "len(points)", "r2[@] <= r1[@]")}],
+    goal=["r2[len(points)-1] + 1 <= r1[len(points)-1] + 1"],      # number of clusters = last label + 1
+)
+# complete linkage: greedy stays ahead - either strictly fewer clusters so far, or the same number and a run that started no later
+LEMMAS["complete_linkage_monotone"] = dict(
+    context="kneeliverse.clustering.complete_linkage", owner="C11", mode="R",
+    vars={"points": "Seq[Tup[Real,Real]]", "t1": "Real", "t2": "Real", "r1": "Seq[Int]", "r2": "Seq[Int]", "A1": "Seq[Int]", "A2": "Seq[Int]"},
+    hyps=["len(points) >= 2", "forall2(0, len(points), lambda a, b: points[a][0] < points[b][0])", "0 < t1 and t1 <= t2"]
+         + _post("complete", "r1", "t1") + _post("complete", "r2", "t2")
+         # A1[i] / A2[i]: first index of the run containing i (exists and is unique for label sequences of this shape)
+         + ["forall(0, len(points), lambda i: %s)" % first_of("r1", "i", "A1[i]"), "forall(0, len(points), lambda i: %s)" % first_of("r2", "i", "A2[i]")],
+    steps=[
+        "%s > 0" % RANGE,
+        # the start of the run moves only when a new cluster starts
+        "forall(0, len(points) - 1, lambda i: implies(r1[i+1] == r1[i], A1[i+1] == A1[i]))",
+        "forall(0, len(points) - 1, lambda i: implies(r1[i+1] != r1[i], A1[i+1] == i + 1))",
+        "forall(0, len(points) - 1, lambda i: implies(r2[i+1] == r2[i], A2[i+1] == A2[i]))",
+        "forall(0, len(points) - 1, lambda i: implies(r2[i+1] != r2[i], A2[i+1] == i + 1))",
+        # the rule, with the run start named
+        "forall(0, len(points) - 1, lambda i: iff(r1[i+1] == r1[i] + 1, absr(points[i+1][0] - points[A1[i]][0]) / %s >= t1))" % RANGE,
+        "forall(0, len(points) - 1, lambda i: iff(r2[i+1] == r2[i] + 1, absr(points[i+1][0] - points[A2[i]][0]) / %s >= t2))" % RANGE,
+        "forall(0, len(points) - 1, lambda i: r1[i+1] == r1[i] or r1[i+1] == r1[i] + 1)",
+        "forall(0, len(points) - 1, lambda i: r2[i+1] == r2[i] or r2[i+1] == r2[i] + 1)",
+        # an earlier run start is farther away (x is increasing)
+        "forall(0, len(points) - 1, lambda i: implies(A1[i] <= A2[i], absr(points[i+1][0] - points[A1[i]][0]) >= absr(points[i+1][0] - points[A2[i]][0])))",
+        "forall(0, len(points) - 1, lambda i: implies(A1[i] <= A2[i], absr(points[i+1][0] - points[A1[i]][0]) / %s >= absr(points[i+1][0] - points[A2[i]][0]) / %s))" % (RANGE, RANGE),
+        {"induct": ("i", "0", "len(points)", "r2[@] <= r1[@] and implies(r2[@] == r1[@], A1[@] <= A2[@])")}],
+    goal=["r2[len(points)-1] + 1 <= r1[len(points)-1] + 1"],
+)
